@@ -81,7 +81,7 @@ theorem delete_preserves {sv sv' : Server} {ns : Name} {p : Path} (hinv : WInv s
       | true =>
         exfalso
         have hao : pkEq a.path orig.path = true := pkEq_trans (pkEq_symm hpk) hrem
-        have hprops := (hinv.coh S hS S0 hS0r a haS orig horig hao).1
+        have hprops := (hinv.coh S hS S0 hS0r a haS orig horig hao (hasRef_of_endNss hn)).1
         have he : endNss a = endNss orig := endNss_of_props hprops
         -- … stored in a namespace that its ends name, hence in a namespace of the deletion list
         have hloc : inNss (endNss a) S.name = true := by
@@ -285,9 +285,9 @@ theorem create_preserves {sv sv' : Server} {ns : Name} {a : Inst} (hinv : WInv s
         rcases hhome with h0 | h1
         · exact Or.inl h0
         · exact Or.inr (by rw [← inNss_congr hmS]; exact h1)
-  · intro S hS T hT b hb c hc hpk he
+  · intro S hS T hT b hb c hc hpk hr he
     rcases createF_mem hb with hb | ⟨hinS, n, rfl, _⟩ <;> rcases createF_mem hc with hc | ⟨hinT, m, rfl, _⟩
-    · exact hinv.conf S hS T hT b hb c hc hpk he
+    · exact hinv.conf S hS T hT b hb c hc hpk hr he
     · rw [pkEq_rebase_right] at hpk; rw [hfresh S hS b hb] at hpk; cases hpk
     · rw [pkEq_rebase_left] at hpk; rw [pkEq_symm_eq] at hpk; rw [hfresh T hT c hc] at hpk; cases hpk
     · -- no ends: the only namespace of the loop is the request namespace
@@ -320,6 +320,6 @@ theorem create_preserves {sv sv' : Server} {ns : Name} {a : Inst} (hinv : WInv s
     · exact hinv.coh S hS T hT b hb c hc hpk
     · rw [pkEq_rebase_right] at hpk; rw [hfresh S hS b hb] at hpk; cases hpk
     · rw [pkEq_rebase_left] at hpk; rw [pkEq_symm_eq] at hpk; rw [hfresh T hT c hc] at hpk; cases hpk
-    · exact ⟨rfl, rfl⟩
+    · exact fun _ => ⟨rfl, rfl⟩
 
 end C13
